@@ -66,6 +66,7 @@ type ProcSpec struct {
 type ProcResult struct {
 	Code    int
 	Killed  bool
+	Runaway bool
 	Crash   string
 	CrashAt string
 	Stack   string
@@ -132,7 +133,7 @@ func runProc(fs *simos.FS, spec ProcSpec, io IOCfg, prevStdout []byte) ProcResul
 		stats.fired(f.Kind)
 	}
 	return ProcResult{
-		Code: p.Code, Killed: p.Killed, Crash: p.Crash, CrashAt: p.CrashAt, Stack: p.Stack,
+		Code: p.Code, Killed: p.Killed, Runaway: p.Runaway, Crash: p.Crash, CrashAt: p.CrashAt, Stack: p.Stack,
 		Stdout: append([]byte(nil), p.Stdout.Bytes()...), Stderr: append([]byte(nil), p.Stderr.Bytes()...),
 		Steps: p.Steps, Fired: p.Fired,
 	}
@@ -191,7 +192,12 @@ func show(b []byte) string {
 // eventLog renders the steps of a process for the replay file.
 func eventLog(i int, r ProcResult) []string {
 	var out []string
-	for _, s := range r.Steps {
+	steps := r.Steps
+	if len(steps) > 400 {
+		out = append(out, fmt.Sprintf("p%d ... %d steps, the last 400 shown", i, len(steps)))
+		steps = steps[len(steps)-400:]
+	}
+	for _, s := range steps {
 		l := fmt.Sprintf("p%d #%d %s", i, s.N, s.Kind)
 		if s.Arg != "" {
 			l += " " + s.Arg
@@ -207,6 +213,9 @@ func eventLog(i int, r ProcResult) []string {
 	end := fmt.Sprintf("p%d end code=%d", i, r.Code)
 	if r.Killed {
 		end += " killed"
+	}
+	if r.Runaway {
+		end += " STEP-LIMIT (no termination)"
 	}
 	if r.Crash != "" {
 		end += " CRASH " + r.Crash + " at " + r.CrashAt
